@@ -18,7 +18,9 @@ RULE = ("Hypothesis-generated: problem dimension 1..4, objective, parameters, a 
         "StaticNDPaintListener in its 4 valid mode/calc pairs; AnimationPaintListener; AnimationNDPaintListener; "
         "painters only where they apply). Two recording listeners (first and last in the list) share an event "
         "counter with the objective. Oracle: notification count / order / content, no exception escapes, trial "
-        "sequence and result equal to the same run without listeners, console final report equals the solution. "
+        "sequence, local-refinement evaluations and result equal to the same run without listeners (refineSolution "
+        "on in a third of the cases that call Solve), console final report equals the solution. Trials are compared "
+        "with the values they had when they were delivered. "
         "Non-trivial: (a non-overridden callback or a shipped listener) together with a batch of size > 1.")
 ASSUMPTIONS = [
     "objective probes made by painters inside callbacks are recognised by event number (between the first and the "
